@@ -103,7 +103,8 @@ pub fn replay(id: &str, doc: &Value) -> i32 {
                 }
             }
         }
-        "C01" if !case["resubmitted_parts_of"].is_null() => c01::replay_resubmit(case),
+        "C01" | "C11" if !case["resubmitted_parts_of"].is_null() => c01::replay_resubmit(case),
+        "C04" if !case["bystander_date"].is_null() => c04::replay_bystander(case),
         "C17" if !case["long_run_step"].is_null() => {
             println!("{}", serde_json::to_string_pretty(case).unwrap_or_default());
             println!("re-run: ./check C17 quick (the run of refusals is repeated from a fresh process; the step number identifies where the leak appeared)");
